@@ -1,4 +1,189 @@
+import BobModel.Model.ShellEnv
 import BobModel.Util.Proto
-open Lean Proto
-/-- stub driver of C13: replaced when the model of this property is built -/
-def main : IO Unit := runPure fun _ => err "unsupported"
+open Lean Proto ShellEnv
+
+/-
+requests (strings are JSON strings, dicts are JSON objects, pairs are 2-element arrays):
+ {"op":"quote","s":s}                                   -> {"ok": shlexQuote s}
+ {"op":"word","text":t,"env":{..}}                      -> {"ok": value} | {"err": kind}      (bashWord)
+ {"op":"abspath","cwd":c,"p":p}                         -> {"ok": posixAbs c p}
+ {"op":"step","spec":SPEC,"pycwd":c,"keepEnv":b,"trace":b,"bash":s,"execScript":s,
+        "preserve":b,"whitelist":[..],"host":{..},"extra":{..},"defaults":{..}}
+      -> {"prolog":text,"argv":[..],"positional":[..],"procEnv":{..},"env":{..}|null,"arrays":{..},"err":kind|null}
+ {"op":"prune","full":{..},"strong":[..],"weak":[..]}   -> {"env":{..},"digest":{..}}
+ {"op":"whitelist","cfgs":[[adds,removes]..],"cli":[..]} -> {"ok":[..]}
+ {"op":"fingerprint","stepEnv":{..},"fpVars":[..],"procEnv":{..}} -> {"preamble":text,"fpEnv":{..},"env":{..},"err":..}
+ {"op":"fromstep","desc":DESC,"cwd":execPath}           -> {"spec":SPEC,"depMounts":[[s,e]..]}
+ {"op":"sandbox","mode":"slim"|"fat", ...}              -> {"argv":[..],"mounts":[[src,tgt,rw]..],"parsed":[[src,tgt,rw]..]|null}
+ SPEC = {"env":{..},"paths":[..],"libraryPaths":[..],"cwd":s,"args":[..],"allPaths":[[n,p]..],"depPaths":..,"toolPaths":..}
+-/
+
+def S (s : String) : Str := s.toList
+def J (s : Str) : Json := Json.str (String.ofList s)
+
+def envOf (j : Json) : Env :=
+  match j with
+  | .obj kvs => kvs.toList.filterMap fun (k, v) => match v with
+    | .str s => some (S k, S s)
+    | _ => none
+  | _ => []
+
+def dedup (e : Env) : Env :=
+  e.foldl (fun acc kv => if (acc.any fun x => x.1 = kv.1) then acc else acc ++ [kv]) []
+
+def envJ (e : Env) : Json := Json.mkObj ((dedup e).map fun kv => (String.ofList kv.1, J kv.2))
+
+def strsOf (j : Json) (k : String) : List Str := (getArr j k).filterMap fun x => match x with
+  | .str s => some (S s)
+  | _ => none
+
+def pairOf (j : Json) : Option (Str × Str) :=
+  match j with
+  | .arr a => match a.toList with
+    | [.str x, .str y] => some (S x, S y)
+    | _ => none
+  | _ => none
+
+def pairsOf (j : Json) (k : String) : List (Str × Str) := (getArr j k).filterMap pairOf
+
+def pairsJ (ps : List (Str × Str)) : Json := Json.arr (ps.map fun p => Json.arr #[J p.1, J p.2]).toArray
+def strsJ (xs : List Str) : Json := Json.arr (xs.map J).toArray
+
+def specOf (j : Json) : Spec :=
+  { env := envOf (j.getObjValD "env"), paths := strsOf j "paths", libraryPaths := strsOf j "libraryPaths",
+    cwd := S (getStr j "cwd"), args := strsOf j "args", allPaths := pairsOf j "allPaths",
+    depPaths := pairsOf j "depPaths", toolPaths := pairsOf j "toolPaths" }
+
+def specJ (s : Spec) : Json :=
+  Json.mkObj [("env", envJ s.env), ("paths", strsJ s.paths), ("libraryPaths", strsJ s.libraryPaths),
+    ("cwd", J s.cwd), ("args", strsJ s.args), ("allPaths", pairsJ s.allPaths), ("depPaths", pairsJ s.depPaths),
+    ("toolPaths", pairsJ s.toolPaths)]
+
+def errName : ShErr → String
+  | .unterminatedQuote => "unterminatedQuote" | .unsupported => "unsupported" | .badIdentifier => "badIdentifier"
+  | .badSubscript => "badSubscript" | .syntaxErr => "syntax" | .nul => "nul" | .outOfFuel => "outOfFuel"
+
+def arraysJ (a : List (Str × List (Str × Str))) : Json :=
+  Json.mkObj (a.reverse.map fun (n, es) => (String.ofList n, envJ es))
+
+def depStepOf (j : Json) : DepStep :=
+  { name := S (getStr j "name"), valid := getBool j "valid", isCheckout := getBool j "isCheckout",
+    storage := S (getStr j "storage"), exec := S (getStr j "exec") }
+
+def toolOf (j : Json) : Tool :=
+  { name := S (getStr j "name"), step := depStepOf (j.getObjValD "step"), path := S (getStr j "path"),
+    libs := strsOf j "libs" }
+
+def descOf (j : Json) : StepDesc :=
+  { env := envOf (j.getObjValD "env"), valid := getBool j "valid", isCheckout := getBool j "isCheckout",
+    args := (getArr j "args").map depStepOf, tools := (getArr j "tools").map toolOf,
+    sandbox := (getObj? j "sandbox").map depStepOf, chain := (getArr j "chain").map depStepOf }
+
+def mountsJ (ms : List Mount) : Json :=
+  Json.arr (ms.map fun m => Json.arr #[J m.src, J m.tgt, Json.bool m.rw]).toArray
+
+def hostMountOf (j : Json) : HostMount :=
+  { host := S (getStr j "host"), sandbox := S (getStr j "sandbox"), options := strsOf j "options" }
+
+def handle (j : Json) : Json :=
+  match getStr j "op" with
+  | "quote" => Json.mkObj [("ok", J (shlexQuote (S (getStr j "s"))))]
+  | "word" =>
+    match bashWord (envOf (j.getObjValD "env")) (S (getStr j "text")) with
+    | .ok v => Json.mkObj [("ok", J v)]
+    | .error e => Json.mkObj [("err", Json.str (errName e))]
+  | "abspath" => Json.mkObj [("ok", J (posixAbs (S (getStr j "cwd")) (S (getStr j "p"))))]
+  | "step" =>
+    let spec := specOf (j.getObjValD "spec")
+    let abs := posixAbs (S (getStr j "pycwd"))
+    let prolog := formatProlog abs spec (getBool j "keepEnv")
+    let argv := setupCallArgs abs spec (S (getStr j "bash")) (S (getStr j "execScript")) (getBool j "trace")
+    let procEnv := processEnv (getBool j "preserve") (strsOf j "whitelist") (envOf (j.getObjValD "host")) none
+      (envOf (j.getObjValD "extra"))
+    let e0 := procEnv ++ envOf (j.getObjValD "defaults")
+    let res := evalScript ⟨e0, []⟩ (formatProlog abs spec false)
+    let common := [("prolog", J prolog), ("argv", strsJ argv), ("positional", strsJ (positionalOf argv)),
+      ("procEnv", envJ procEnv)]
+    match res with
+    | .ok sh => Json.mkObj (common ++ [("env", envJ sh.env), ("arrays", arraysJ sh.arrays), ("err", Json.null)])
+    | .error e => Json.mkObj (common ++ [("env", Json.null), ("arrays", Json.null), ("err", Json.str (errName e))])
+  | "prune" =>
+    let full := envOf (j.getObjValD "full")
+    Json.mkObj [("env", envJ (stepEnvOf full (strsOf j "strong") (strsOf j "weak"))),
+      ("digest", envJ (digestEnvOf full (strsOf j "strong")))]
+  | "whitelist" =>
+    let cfgs := (getArr j "cfgs").map fun c => (strsOf c "adds", strsOf c "removes")
+    Json.mkObj [("ok", strsJ (whiteListFold Consts.C13.posixWhiteList cfgs (strsOf j "cli")))]
+  | "fingerprint" =>
+    let fpEnv := fingerprintEnvOf (envOf (j.getObjValD "stepEnv")) (strsOf j "fpVars")
+    let pre := fingerprintPreamble fpEnv
+    match evalScript ⟨envOf (j.getObjValD "procEnv"), []⟩ pre with
+    | .ok sh => Json.mkObj [("preamble", J pre), ("fpEnv", envJ fpEnv), ("env", envJ sh.env), ("err", Json.null)]
+    | .error e => Json.mkObj [("preamble", J pre), ("fpEnv", envJ fpEnv), ("env", Json.null), ("err", Json.str (errName e))]
+  | "fromstep" =>
+    let d := descOf (j.getObjValD "desc")
+    Json.mkObj [("spec", specJ (specOfStep d (S (getStr j "cwd")))), ("depMounts", pairsJ d.depMounts)]
+  | "sandbox" =>
+    let abs := posixAbs (S (getStr j "pycwd"))
+    let tmpDir := S (getStr j "tmpDir")
+    let entries := strsOf j "rootEntries"
+    let base : List HArg :=
+      if getStr j "mode" == "slim" then slimGroups tmpDir (S (getStr j "pycwd")) entries
+      else
+        let existing := strsOf j "existing"
+        fatGroups tmpDir (abs (S (getStr j "sandboxRoot"))) entries (getBool j "isJenkins")
+          (fun p => existing.contains p) ((getArr j "hostMounts").map hostMountOf) (S (getStr j "user"))
+    let envFile := match j.getObjVal? "envFile" with
+      | .ok (.str s) => some (S s)
+      | _ => none
+    let gs := base ++ stepGroups abs (S (getStr j "realScript")) (S (getStr j "execScript")) (getBool j "netAccess")
+      envFile (S (getStr j "wsStorage")) (S (getStr j "wsExec")) (pairsOf j "depMounts")
+    let call := strsOf j "callArgs"
+    let argv := renderHArgs gs ++ [['-', '-']] ++ call
+    let parsed := match parseHelper {} argv with
+      | .ok o => Json.mkObj [("mounts", mountsJ o.mounts), ("cmd", strsJ o.cmd), ("dirs", strsJ o.dirs),
+          ("workdir", match o.workdir with | some w => J w | none => Json.null),
+          ("root", match o.root with | some w => J w | none => Json.null),
+          ("flags", J o.flags)]
+      | .error _ => Json.null
+    Json.mkObj [("argv", strsJ argv), ("mounts", mountsJ (gs.flatMap HArg.mounts)), ("parsed", parsed)]
+  | "resolve" =>
+    let ms := (getArr j "mounts").filterMap fun m => match m with
+      | .arr a => match a.toList with
+        | [.str s, .str t, .bool rw] => some (⟨S s, S t, rw⟩ : Mount)
+        | _ => none
+      | _ => none
+    match resolve ms (S (getStr j "path")) with
+    | some (m, rest) => Json.mkObj [("src", J m.src), ("tgt", J m.tgt), ("rw", Json.bool m.rw), ("rest", strsJ rest)]
+    | none => Json.mkObj [("src", Json.null)]
+  | _ => err "bad-op"
+
+/-- JSON text with every character outside printable ASCII written as `\uXXXX` (such characters occur only
+inside strings): the harness splits replies with `str.splitlines`, which also breaks at U+0085, U+2028 … -/
+def hex4 (n : Nat) : String :=
+  let d := fun k => Bytes.hexDigit ((n / k) % 16)
+  String.ofList ['\\', 'u', d 4096, d 256, d 16, d 1]
+
+def asciiJson (s : String) : String :=
+  s.foldl (fun acc c =>
+    let n := c.toNat
+    if 32 ≤ n && n < 127 then acc.push c
+    else if n < 0x10000 then acc ++ hex4 n
+    else
+      let v := n - 0x10000
+      acc ++ hex4 (0xD800 + v / 1024) ++ hex4 (0xDC00 + v % 1024)) ""
+
+partial def loop (h : IO.FS.Stream) (out : IO.FS.Stream) : IO Unit := do
+  let line ← h.getLine
+  if line.isEmpty then
+    out.flush
+    return ()
+  let t := line.trimAscii.toString
+  if t.isEmpty then loop h out
+  else
+    match Json.parse t with
+    | .error e => out.putStrLn (Json.compress (Json.mkObj [("proto_error", Json.str e)])); loop h out
+    | .ok j => out.putStrLn (asciiJson (Json.compress (handle j))); loop h out
+
+def main : IO Unit := do
+  loop (← IO.getStdin) (← IO.getStdout)
